@@ -322,7 +322,15 @@ func (p *c14Party) genShare(in *c14Inst, round int, r1agg any) any {
 			return &r1
 		}
 		fillG(&r2.GadgetCiphertext)
+		// the ephemeral secret and the round-one aggregate are inputs of round two: a party that has to produce
+		// its share again (a lost message, another receiver) calls it again with them
+		ephBefore, aggBefore := hashQP(p.eph[in.id].Value), hashGadget(&r1agg.(*multiparty.RelinearizationKeyGenShare).GadgetCiphertext)
 		pr.rkg.GenShareRoundTwo(p.eph[in.id], p.sk, *r1agg.(*multiparty.RelinearizationKeyGenShare), &r2)
+		r.ctx.Count("oracle.round-two-inputs-intact", 1)
+		if hashQP(p.eph[in.id].Value) != ephBefore || hashGadget(&r1agg.(*multiparty.RelinearizationKeyGenShare).GadgetCiphertext) != aggBefore {
+			r.fail("inputs", "rkg.GenShareRoundTwo|input-modified", "GenShareRoundTwo modified its ephemeral secret or the round-one aggregate it was given: the share cannot be produced a second time")
+			return nil
+		}
 		return &r2
 	case kGKG:
 		s := pr.gkg.AllocateShare(in.ep)
@@ -1045,3 +1053,4 @@ func (r *c14Run) checkKey(in *c14Inst, crps []c14CRPs, s, s2 *rlwe.SecretKey, B 
 	}
 	return true
 }
+
